@@ -3737,7 +3737,7 @@ yyreduce:
           (yyval.expression).required_strings.count = 0;
         }
 
-        yr_parser_emit_with_arg(yyscanner, OP_OF, OF_STRING_SET, NULL, NULL);
+        fail_if_error(yr_parser_emit_with_arg(yyscanner, OP_OF, OF_STRING_SET, NULL, NULL));
 
         (yyval.expression).type = EXPRESSION_TYPE_BOOLEAN;
       }
@@ -3752,7 +3752,7 @@ yyreduce:
           yywarning(yyscanner,
             "expression always false - requesting %" PRId64 " of %" PRId64 ".", (yyvsp[-2].expression).value.integer, (yyvsp[0].integer));
         }
-        yr_parser_emit_with_arg(yyscanner, OP_OF, OF_RULE_SET, NULL, NULL);
+        fail_if_error(yr_parser_emit_with_arg(yyscanner, OP_OF, OF_RULE_SET, NULL, NULL));
 
         (yyval.expression).type = EXPRESSION_TYPE_BOOLEAN;
         (yyval.expression).required_strings.count = 0;
@@ -3787,7 +3787,7 @@ yyreduce:
           (yyval.expression).required_strings.count = 0;
         }
 
-        yr_parser_emit_with_arg(yyscanner, OP_OF_PERCENT, OF_STRING_SET, NULL, NULL);
+        fail_if_error(yr_parser_emit_with_arg(yyscanner, OP_OF_PERCENT, OF_STRING_SET, NULL, NULL));
       }
 #line 3793 "libyara/grammar.c"
     break;
@@ -3810,7 +3810,7 @@ yyreduce:
           fail_with_error(ERROR_INVALID_PERCENTAGE);
         }
 
-        yr_parser_emit_with_arg(yyscanner, OP_OF_PERCENT, OF_RULE_SET, NULL, NULL);
+        fail_if_error(yr_parser_emit_with_arg(yyscanner, OP_OF_PERCENT, OF_RULE_SET, NULL, NULL));
       }
 #line 3816 "libyara/grammar.c"
     break;
@@ -3835,7 +3835,7 @@ yyreduce:
           (yyval.expression).required_strings.count = 0;
         }
 
-        yr_parser_emit(yyscanner, OP_OF_FOUND_IN, NULL);
+        fail_if_error(yr_parser_emit(yyscanner, OP_OF_FOUND_IN, NULL));
 
         (yyval.expression).type = EXPRESSION_TYPE_BOOLEAN;
       }
@@ -3887,7 +3887,7 @@ yyreduce:
           (yyval.expression).required_strings.count = 0;
         }
 
-        yr_parser_emit(yyscanner, OP_OF_FOUND_AT, NULL);
+        fail_if_error(yr_parser_emit(yyscanner, OP_OF_FOUND_AT, NULL));
 
         (yyval.expression).type = EXPRESSION_TYPE_BOOLEAN;
       }
@@ -3897,7 +3897,7 @@ yyreduce:
   case 99: /* expression: "<not>" boolean_expression  */
 #line 1897 "libyara/grammar.y"
       {
-        yr_parser_emit(yyscanner, OP_NOT, NULL);
+        fail_if_error(yr_parser_emit(yyscanner, OP_NOT, NULL));
 
         (yyval.expression).type = EXPRESSION_TYPE_BOOLEAN;
         (yyval.expression).required_strings.count = 0;
@@ -3908,7 +3908,7 @@ yyreduce:
   case 100: /* expression: "<defined>" boolean_expression  */
 #line 1904 "libyara/grammar.y"
       {
-        yr_parser_emit(yyscanner, OP_DEFINED, NULL);
+        fail_if_error(yr_parser_emit(yyscanner, OP_DEFINED, NULL));
         (yyval.expression).type = EXPRESSION_TYPE_BOOLEAN;
         (yyval.expression).required_strings.count = 0;
       }
@@ -4440,7 +4440,7 @@ yyreduce:
 #line 2364 "libyara/grammar.y"
       {
         // Push end-of-list marker
-        yr_parser_emit_push_const(yyscanner, YR_UNDEFINED);
+        fail_if_error(yr_parser_emit_push_const(yyscanner, YR_UNDEFINED));
       }
 #line 4446 "libyara/grammar.c"
     break;
@@ -4511,7 +4511,7 @@ yyreduce:
 #line 2417 "libyara/grammar.y"
       {
         // Push end-of-list marker
-        yr_parser_emit_push_const(yyscanner, YR_UNDEFINED);
+        fail_if_error(yr_parser_emit_push_const(yyscanner, YR_UNDEFINED));
       }
 #line 4517 "libyara/grammar.c"
     break;
@@ -4669,7 +4669,7 @@ yyreduce:
   case 140: /* for_quantifier: "<all>"  */
 #line 2557 "libyara/grammar.y"
       {
-        yr_parser_emit_push_const(yyscanner, YR_UNDEFINED);
+        fail_if_error(yr_parser_emit_push_const(yyscanner, YR_UNDEFINED));
         (yyval.expression).type = EXPRESSION_TYPE_QUANTIFIER;
         (yyval.expression).value.integer = FOR_EXPRESSION_ALL;
      }
@@ -4679,7 +4679,7 @@ yyreduce:
   case 141: /* for_quantifier: "<any>"  */
 #line 2563 "libyara/grammar.y"
       {
-        yr_parser_emit_push_const(yyscanner, 1);
+        fail_if_error(yr_parser_emit_push_const(yyscanner, 1));
         (yyval.expression).type = EXPRESSION_TYPE_QUANTIFIER;
         (yyval.expression).value.integer = FOR_EXPRESSION_ANY;
       }
@@ -4689,7 +4689,7 @@ yyreduce:
   case 142: /* for_quantifier: "<none>"  */
 #line 2569 "libyara/grammar.y"
       {
-        yr_parser_emit_push_const(yyscanner, 0);
+        fail_if_error(yr_parser_emit_push_const(yyscanner, 0));
         (yyval.expression).type = EXPRESSION_TYPE_QUANTIFIER;
         (yyval.expression).value.integer = FOR_EXPRESSION_NONE;
       }
